@@ -3,6 +3,9 @@ use serde_json::Value;
 
 pub mod c01;
 pub mod c02;
+pub mod c03;
+pub mod c04;
+pub mod c05;
 pub mod c06;
 pub mod c09;
 pub mod c10;
@@ -13,6 +16,9 @@ pub fn run(ctx: &Ctx) -> Option<Report> {
     match ctx.id.as_str() {
         "C01" => Some(c01::run(ctx)),
         "C02" => Some(c02::run(ctx)),
+        "C03" => Some(c03::run(ctx)),
+        "C04" => Some(c04::run(ctx)),
+        "C05" => Some(c05::run(ctx)),
         "C06" => Some(c06::run(ctx)),
         "C09" => Some(c09::run(ctx)),
         "C10" => Some(c10::run(ctx)),
